@@ -91,7 +91,7 @@ def tlc(ctx, module, cfg, workers=None, env=None, timeout=900, extra=(), deque=F
     r.depth = int(m.group(1)) if m else 0
     m = re.search(r"Invariant (\S+) is violated", p.stdout)
     r.invariant = m.group(1) if m else None
-    r.temporal = "Temporal properties were violated" in p.stdout
+    r.temporal = bool(re.search(r"Temporal propert(y|ies) .*(was|were) violated", p.stdout))
     r.deadlock = "Deadlock reached" in p.stdout
     r.violated = bool(r.invariant or r.temporal or r.deadlock or "Action property" in p.stdout and "is violated" in p.stdout)
     m = re.findall(r'"HWM", (\d+)', p.stdout)
@@ -335,8 +335,13 @@ def report_failure(ctx, sig, what, files=None, seg=None, tlc_out=None, replay_cm
     known, _ = load_known()
     for k in known:
         if k["property"] == ctx.pid and re.fullmatch(k["sig"], sig):
-            if sig not in [h["sig"] for h in ctx.known_hits]:
-                ctx.known_hits.append({"sig": sig, "what": k["what"]})
+            for h in ctx.known_hits:
+                if h["what"] == k["what"]:
+                    h["count"] += 1
+                    if sig not in h["sigs"] and len(h["sigs"]) < 12:
+                        h["sigs"].append(sig)
+                    return "known"
+            ctx.known_hits.append({"sig": sig, "what": k["what"], "count": 1, "sigs": [sig]})
             return "known"
     n = len(ctx.violations) + 1
     rdir = os.path.join(VERIF, "evidence", "replay", ctx.pid, "%s_seed%d_%d" % (ctx.tier, ctx.seed, n))
@@ -402,7 +407,7 @@ def finish(ctx, level_extra=None):
     with open(os.path.join(VERIF, "evidence", "%s.json" % ctx.pid), "w") as f:
         json.dump(ev, f, indent=1, sort_keys=True, default=str)
     for h in ctx.known_hits:
-        print("KNOWN-FINDING: property=%s %s [%s]" % (ctx.pid, h["what"], h["sig"]))
+        print("KNOWN-FINDING: property=%s %s [%d case(s), e.g. %s]" % (ctx.pid, h["what"], h["count"], h["sig"]))
     for v in ctx.violations:
         print("VIOLATION property=%s replay=%s" % (ctx.pid, v["replay"]))
         print("  " + v["what"][:600])
